@@ -1,1094 +1,3 @@
-import BddVerif.Gen.Algo2
-import BddVerif.Gen.RustShimStr
-/-!
-GENERATED by tools/rust2lean.py from the Rust sources of the library — DO NOT EDIT; regenerated on every run.
-Third batch of translated functions (same conventions as Gen/Algo.lean / Gen/Algo2.lean, whose definitions it reuses):
-code over characters, strings and `enum`s. `String`/`&str` = `String`, `char` = `Char`, `Chars`/`Peekable<Chars>` = the
-list of remaining characters, a Rust `enum` = a generated `inductive` (`Box` erased), `fmt::Formatter` = the `String`
-written so far, mutually recursive functions = a `mutual` block with structural recursion on `fuel`.
--/
-set_option linter.unusedVariables false
-set_option linter.constructorNameAsVariable false
-namespace B.Gen.Algo3
-open B B.Gen B.Gen.Algo B.Gen.Algo2
-attribute [local instance 10000] Rust.monadOutcomeInline
-
-/-! translated functions (Rust name ↦ Lean name, kind, generated lines):
-  enum ExprToken ↦ ExprToken  [inductive, 33 lines]  src/boolean_expression/_impl_parser.rs:17
-  const NOT_IN_VAR_NAME ↦ NOT_IN_VAR_NAME  [const, 3 lines]  src/lib.rs:106
-  tokenize_group ↦ tokenize_group  [monadic+fuel, 117 lines]  src/boolean_expression/_impl_parser.rs:42
-  index_of_first ↦ index_of_first  [pure, 3 lines]  src/boolean_expression/_impl_parser.rs:118
-  enum BooleanExpression ↦ BooleanExpression  [inductive, 12 lines]  src/boolean_expression/mod.rs:21
-  terminal + xor + and + or + cond + imp + iff + parse_formula ↦ terminal parser__xor parser__and parser__or parser__cond parser__imp parser__iff parse_formula  [mutual, monadic+fuel, 200 lines]  src/boolean_expression/_impl_parser.rs:109
-  parse_boolean_expression ↦ parse_boolean_expression  [monadic+fuel, 13 lines]  src/boolean_expression/_impl_parser.rs:33
-  BooleanExpression::fmt ↦ BooleanExpression_fmt  [monadic+fuel, 91 lines]  src/boolean_expression/_impl_boolean_expression.rs:18
-  BooleanExpression::try_from ↦ BooleanExpression_try_from  [monadic+fuel, 4 lines]  src/boolean_expression/_impl_boolean_expression.rs:12
-  Bdd::if_then_else::ite_function ↦ Bdd_if_then_else__ite_function  [pure, 3 lines]  src/_impl_bdd/_impl_boolean_ops.rs:69
-  Bdd::if_then_else ↦ Bdd_if_then_else  [monadic+fuel, 4 lines]  src/_impl_bdd/_impl_boolean_ops.rs:68
-  BddVariableSet::safe_eval_expression ↦ BddVariableSet_safe_eval_expression  [monadic+fuel, 74 lines]  src/boolean_expression/_impl_boolean_expression.rs:65
-  BddVariableSet::eval_expression ↦ BddVariableSet_eval_expression  [monadic+fuel, 4 lines]  src/boolean_expression/_impl_boolean_expression.rs:110
-  BddVariableSet::eval_expression_string ↦ BddVariableSet_eval_expression_string  [monadic+fuel, 6 lines]  src/boolean_expression/_impl_boolean_expression.rs:117
-  Bdd::to_boolean_expression ↦ Bdd_to_boolean_expression  [monadic, 61 lines]  src/_impl_bdd/_impl_util.rs:304
-  BddVariableSet::new ↦ BddVariableSet_new  [monadic, 28 lines]  src/_impl_bdd_variable_set.rs:28
-  BddVariableSet::variables ↦ BddVariableSet_variables  [pure, 3 lines]  src/_impl_bdd_variable_set.rs:76
-  BddVariableSet::variable_names ↦ BddVariableSet_variable_names  [pure, 3 lines]  src/_impl_bdd_variable_set.rs:82
-  BddVariableSetBuilder::new ↦ BddVariableSetBuilder_new  [pure, 3 lines]  src/_impl_bdd_variable_set_builder.rs:7
-  BddVariableSetBuilder::make_variable ↦ BddVariableSetBuilder_make_variable  [monadic, 23 lines]  src/_impl_bdd_variable_set_builder.rs:21
-  BddVariableSetBuilder::make_variables ↦ BddVariableSetBuilder_make_variables  [monadic, 10 lines]  src/_impl_bdd_variable_set_builder.rs:50
-  BddVariableSetBuilder::build ↦ BddVariableSetBuilder_build  [monadic, 12 lines]  src/_impl_bdd_variable_set_builder.rs:55
-  write_bdd_as_dot ↦ write_bdd_as_dot  [monadic, 128 lines]  src/_impl_bdd/_impl_export_dot.rs:36
-  bdd_to_dot_string ↦ bdd_to_dot_string  [monadic, 10 lines]  src/_impl_bdd/_impl_export_dot.rs:98
-  Bdd::write_as_dot_string ↦ Bdd_write_as_dot_string  [monadic, 7 lines]  src/_impl_bdd/_impl_export_dot.rs:12
-  Bdd::to_dot_string ↦ Bdd_to_dot_string  [monadic, 4 lines]  src/_impl_bdd/_impl_export_dot.rs:27
-  ValuationsOfClauseIterator::empty ↦ ValuationsOfClauseIterator_empty  [pure, 3 lines]  src/_impl_iterator_valuations_of_clause.rs:6
-  Bdd::sat_valuations ↦ Bdd_sat_valuations  [monadic+fuel, 16 lines]  src/_impl_bdd_satisfying_valuations.rs:11
-  BddSatisfyingValuations::next ↦ BddSatisfyingValuations_next  [monadic+fuel, 25 lines]  src/_impl_bdd_satisfying_valuations.rs:65
-  Bdd::sat_clauses ↦ Bdd_sat_clauses  [monadic+fuel, 4 lines]  src/_impl_bdd_satisfying_valuations.rs:50
-  lift_err ↦ lift_err  [pure, 3 lines]  src/_impl_bdd/_impl_serialisation.rs:106
-  Bdd::write_as_string ↦ Bdd_write_as_string  [monadic, 38 lines]  src/_impl_bdd/_impl_serialisation.rs:9
-  Bdd::read_as_string ↦ Bdd_read_as_string  [monadic, 40 lines]  src/_impl_bdd/_impl_serialisation.rs:18
-  Bdd::from_string ↦ Bdd_from_string  [monadic, 5 lines]  src/_impl_bdd/_impl_serialisation.rs:79
-  Bdd::fmt ↦ Bdd_fmt  [monadic, 12 lines]  src/_impl_bdd/_impl_serialisation.rs:98
--/
-
-/-- `enum ExprToken` — src/boolean_expression/_impl_parser.rs:17 (`Box` erased, `Vec` = `Array`, `String` = `String`) -/
-inductive ExprToken where
-  | Not
-  | And
-  | Or
-  | Xor
-  | Imp
-  | Iff
-  | Colon
-  | QuestionMark
-  | Id (a0 : String)
-  | Tokens (a0 : Array ExprToken)
-deriving Repr, Inhabited
-mutual
-/-- structural equality of `ExprToken` (`derive(PartialEq)`) -/
-def ExprToken.beq : ExprToken → ExprToken → Bool
-  | .Not, .Not => true
-  | .And, .And => true
-  | .Or, .Or => true
-  | .Xor, .Xor => true
-  | .Imp, .Imp => true
-  | .Iff, .Iff => true
-  | .Colon, .Colon => true
-  | .QuestionMark, .QuestionMark => true
-  | .Id a0, .Id b0 => a0 == b0
-  | .Tokens ⟨a0⟩, .Tokens ⟨b0⟩ => ExprToken.beqL a0 b0
-  | _, _ => false
-def ExprToken.beqL : List ExprToken → List ExprToken → Bool
-  | [], [] => true
-  | x :: xs, y :: ys => ExprToken.beq x y && ExprToken.beqL xs ys
-  | _, _ => false
-end
-instance : BEq ExprToken := ⟨ExprToken.beq⟩
-
-/-- `const NOT_IN_VAR_NAME` — src/lib.rs:106 -/
-def NOT_IN_VAR_NAME : Array Char :=
-  #['!', '&', '|', '^', '=', '<', '>', '(', ')', '?', ':']
-
-/-- `tokenize_group` — src/boolean_expression/_impl_parser.rs:42 (returns the updated `&mut` arguments: data) -/
-def tokenize_group (fuel : Nat) (data : List Char) (top_level : Bool) : Outcome (Except String (Array ExprToken) × List Char) :=
-  match fuel with
-  | 0 => Outcome.panic "fuel"
-  | fuel + 1 => do
-    let mut data := data
-    -- L43: let mut output = Vec::new();
-    let mut output : Array ExprToken := #[]
-    -- L44: while let Some(c) = data.next() {
-    for _ in [0:fuel] do
-      match data.head? with
-      | some c =>
-        data := data.tail
-        -- L45: match c {
-        do
-          let c := c
-          if Rust.charIsWhitespace c then
-            pure ()
-          else
-            match c with
-            | '!' =>
-              output := output.push ExprToken.Not
-            | '&' =>
-              output := output.push ExprToken.And
-            | '|' =>
-              output := output.push ExprToken.Or
-            | '^' =>
-              output := output.push ExprToken.Xor
-            | ':' =>
-              output := output.push ExprToken.Colon
-            | '?' =>
-              output := output.push ExprToken.QuestionMark
-            | '=' =>
-              -- L55: if Some('>') == data.next() {
-              let ch1__ := data.head?
-              data := data.tail
-              if (some ('>')) == ch1__ then
-                -- L56: output.push(ExprToken::Imp);
-                output := output.push ExprToken.Imp
-              else
-                -- L58: return Err("Expected '>' after '='.".to_string());
-                return (Except.error "Expected '>' after '='.", data)
-            | '<' =>
-              -- L62: if Some('=') == data.next() {
-              let ch2__ := data.head?
-              data := data.tail
-              if (some ('=')) == ch2__ then
-                -- L63: if Some('>') == data.next() {
-                let ch3__ := data.head?
-                data := data.tail
-                if (some ('>')) == ch3__ then
-                  -- L64: output.push(ExprToken::Iff)
-                  output := output.push ExprToken.Iff
-                else
-                  -- L66: return Err("Expected '>' after '='.".to_string());
-                  return (Except.error "Expected '>' after '='.", data)
-              else
-                -- L69: return Err("Expected '=' after '<'.".to_string());
-                return (Except.error "Expected '=' after '<'.", data)
-            | '>' =>
-              return (Except.error "Unexpected '>'.", data)
-            | ')' =>
-              -- L75: return if !top_level {
-              if !top_level then
-                -- L76: Ok(output)
-                return (Except.ok output, data)
-              else
-                -- L78: Err("Unexpected ')'.".to_string())
-                return (Except.error "Unexpected ')'.", data)
-            | '(' =>
-              -- L83: let tokens = tokenize_group(data, false)?;
-              let (ret4__, mut5__) := (← tokenize_group fuel data false)
-              data := mut5__
-              let q6__ ← match ret4__ with
-                | .ok v__ => pure v__
-                | .error e__ => return ((.error e__), data)
-              let tokens : Array ExprToken := q6__
-              -- L84: output.push(ExprToken::Tokens(tokens));
-              output := output.push (ExprToken.Tokens tokens)
-            | _ =>
-              -- L88: let mut name = vec![c];
-              let mut name : Array Char := #[c]
-              -- L89: while let Some(c) = data.peek() {
-              let mut done7__ := false
-              for _ in [0:fuel] do
-                match data.head? with
-                | some c =>
-                  -- L90: if c.is_whitespace() || NOT_IN_VAR_NAME.contains(c) {
-                  if (Rust.charIsWhitespace c) || (NOT_IN_VAR_NAME.contains c) then
-                    -- L91: break;
-                    done7__ := true
-                    break
-                  else
-                    -- L93: name.push(*c);
-                    name := name.push c
-                    -- L94: data.next(); // advance iterator
-                    data := data.tail
-                | _ =>
-                  done7__ := true
-                  break
-              -- fuel exhausted while the loop of L89 could still run?
-              if !done7__ then Outcome.panic "fuel"
-              -- L97: output.push(ExprToken::Id(name.into_iter().collect()));
-              output := output.push (ExprToken.Id (String.ofList name.toList))
-      | _ =>
-        break
-    -- fuel exhausted while the loop of L44 could still run?
-    match data.head? with
-    | some _ => Outcome.panic "fuel"
-    | _ => pure ()
-    -- L101: if top_level {
-    if top_level then
-      -- L102: Ok(output)
-      pure (Except.ok output, data)
-    else
-      -- L104: Err("Expected ')'.".to_string())
-      pure ((Except.error "Expected ')'.", data))
-
-/-- `index_of_first` — src/boolean_expression/_impl_parser.rs:118 -/
-def index_of_first (data : Array ExprToken) (token : ExprToken) : Option Nat :=
-  data.findIdx? (fun t => t == token)
-
-/-- `enum BooleanExpression` — src/boolean_expression/mod.rs:21 (`Box` erased, `Vec` = `Array`, `String` = `String`) -/
-inductive BooleanExpression where
-  | Const (a0 : Bool)
-  | Variable (a0 : String)
-  | Not (a0 : BooleanExpression)
-  | And (a0 : BooleanExpression) (a1 : BooleanExpression)
-  | Or (a0 : BooleanExpression) (a1 : BooleanExpression)
-  | Xor (a0 : BooleanExpression) (a1 : BooleanExpression)
-  | Imp (a0 : BooleanExpression) (a1 : BooleanExpression)
-  | Iff (a0 : BooleanExpression) (a1 : BooleanExpression)
-  | Cond (a0 : BooleanExpression) (a1 : BooleanExpression) (a2 : BooleanExpression)
-deriving BEq, Repr, Inhabited
-
-mutual
-/-- `terminal` — src/boolean_expression/_impl_parser.rs:217 -/
-def terminal (fuel : Nat) (data : Array ExprToken) : Outcome (Except String BooleanExpression) :=
-  match fuel with
-  | 0 => Outcome.panic "fuel"
-  | fuel + 1 => do
-    -- L218: if data.is_empty() {
-    if data.isEmpty then
-      -- L219: Err("Expected formula, found nothing :(".to_string())
-      pure (Except.error "Expected formula, found nothing :(")
-    else if (← Rust.idx data 0) == ExprToken.Not then
-      -- L221: Ok(Box::new(Not(terminal(&data[1..])?)))
-      let q1__ ← match (← terminal fuel (← Rust.sliceFrom data 1)) with
-        | .ok v__ => pure v__
-        | .error e__ => return (.error e__)
-      pure (Except.ok (BooleanExpression.Not q1__))
-    else if decide (data.size > 1) then
-      -- L223: Err(format!(
-      pure (Except.error "Expected variable name or (...), but found {:?}.")
-    else
-      -- L228: match &data[0] {
-      match (← Rust.idx data 0) with
-      | ExprToken.Id name =>
-        -- L230: if name == "true" {
-        if name == "true" then
-          -- L231: Ok(Box::new(Const(true)))
-          pure (Except.ok (BooleanExpression.Const true))
-        else if name == "false" then
-          -- L233: Ok(Box::new(Const(false)))
-          pure (Except.ok (BooleanExpression.Const false))
-        else
-          -- L235: Ok(Box::new(Variable(name.clone())))
-          pure (Except.ok (BooleanExpression.Variable name))
-      | ExprToken.Tokens inner =>
-        let q2__ ← match (← parse_formula fuel inner) with
-          | .ok v__ => pure v__
-          | .error e__ => return (.error e__)
-        pure (Except.ok q2__)
-      | other =>
-        pure (Except.error "Expected variable name or (...), but found {:?}.")
-
-/-- `xor` — src/boolean_expression/_impl_parser.rs:204 -/
-def parser__xor (fuel : Nat) (data : Array ExprToken) : Outcome (Except String BooleanExpression) :=
-  match fuel with
-  | 0 => Outcome.panic "fuel"
-  | fuel + 1 => do
-    -- L205: let xor_token = index_of_first(data, ExprToken::Xor);
-    let xor_token : Option Nat := index_of_first data ExprToken.Xor
-    -- L206: if let Some(xor_token) = xor_token {
-    match xor_token with
-    | some xor_token =>
-      -- L207: Ok(Box::new(Xor(
-      let q1__ ← match (← terminal fuel (← Rust.sliceTo data xor_token)) with
-        | .ok v__ => pure v__
-        | .error e__ => return (.error e__)
-      let q2__ ← match (← parser__xor fuel (← Rust.sliceFrom data (xor_token + 1))) with
-        | .ok v__ => pure v__
-        | .error e__ => return (.error e__)
-      pure (Except.ok (BooleanExpression.Xor q1__ q2__))
-    | _ =>
-      -- L212: terminal(data)
-      pure (← terminal fuel data)
-
-/-- `and` — src/boolean_expression/_impl_parser.rs:191 -/
-def parser__and (fuel : Nat) (data : Array ExprToken) : Outcome (Except String BooleanExpression) :=
-  match fuel with
-  | 0 => Outcome.panic "fuel"
-  | fuel + 1 => do
-    -- L192: let and_token = index_of_first(data, ExprToken::And);
-    let and_token : Option Nat := index_of_first data ExprToken.And
-    -- L193: if let Some(and_token) = and_token {
-    match and_token with
-    | some and_token =>
-      -- L194: Ok(Box::new(And(
-      let q1__ ← match (← parser__xor fuel (← Rust.sliceTo data and_token)) with
-        | .ok v__ => pure v__
-        | .error e__ => return (.error e__)
-      let q2__ ← match (← parser__and fuel (← Rust.sliceFrom data (and_token + 1))) with
-        | .ok v__ => pure v__
-        | .error e__ => return (.error e__)
-      pure (Except.ok (BooleanExpression.And q1__ q2__))
-    | _ =>
-      -- L199: xor(data)
-      pure (← parser__xor fuel data)
-
-/-- `or` — src/boolean_expression/_impl_parser.rs:178 -/
-def parser__or (fuel : Nat) (data : Array ExprToken) : Outcome (Except String BooleanExpression) :=
-  match fuel with
-  | 0 => Outcome.panic "fuel"
-  | fuel + 1 => do
-    -- L179: let or_token = index_of_first(data, ExprToken::Or);
-    let or_token : Option Nat := index_of_first data ExprToken.Or
-    -- L180: if let Some(or_token) = or_token {
-    match or_token with
-    | some or_token =>
-      -- L181: Ok(Box::new(Or(
-      let q1__ ← match (← parser__and fuel (← Rust.sliceTo data or_token)) with
-        | .ok v__ => pure v__
-        | .error e__ => return (.error e__)
-      let q2__ ← match (← parser__or fuel (← Rust.sliceFrom data (or_token + 1))) with
-        | .ok v__ => pure v__
-        | .error e__ => return (.error e__)
-      pure (Except.ok (BooleanExpression.Or q1__ q2__))
-    | _ =>
-      -- L186: and(data)
-      pure (← parser__and fuel data)
-
-/-- `cond` — src/boolean_expression/_impl_parser.rs:157 -/
-def parser__cond (fuel : Nat) (data : Array ExprToken) : Outcome (Except String BooleanExpression) :=
-  match fuel with
-  | 0 => Outcome.panic "fuel"
-  | fuel + 1 => do
-    -- L158: let question_token = index_of_first(data, ExprToken::QuestionMark);
-    let question_token : Option Nat := index_of_first data ExprToken.QuestionMark
-    -- L159: let colon_token = index_of_first(data, ExprToken::Colon);
-    let colon_token : Option Nat := index_of_first data ExprToken.Colon
-    -- L160: match (question_token, colon_token) {
-    match (question_token, colon_token) with
-    | (none, none) =>
-      pure (← parser__or fuel data)
-    | (some question_token, some colon_token) =>
-      -- L163: if colon_token < question_token {
-      if decide (colon_token < question_token) then
-        -- L164: return Err("Expected `?` before `:`.".to_string());
-        return Except.error "Expected `?` before `:`."
-      -- L166: Ok(Box::new(Cond(
-      let q1__ ← match (← parser__or fuel (← Rust.sliceTo data question_token)) with
-        | .ok v__ => pure v__
-        | .error e__ => return (.error e__)
-      let q2__ ← match (← parser__or fuel (← Rust.sliceRange data (question_token + 1) colon_token)) with
-        | .ok v__ => pure v__
-        | .error e__ => return (.error e__)
-      let q3__ ← match (← parser__or fuel (← Rust.sliceFrom data (colon_token + 1))) with
-        | .ok v__ => pure v__
-        | .error e__ => return (.error e__)
-      pure (Except.ok (BooleanExpression.Cond q1__ q2__ q3__))
-    | (none, some _) =>
-      pure (Except.error "Expected `?` but only found `:`.")
-    | (some _, none) =>
-      pure (Except.error "Expected `:` but only found `?`.")
-
-/-- `imp` — src/boolean_expression/_impl_parser.rs:136 -/
-def parser__imp (fuel : Nat) (data : Array ExprToken) : Outcome (Except String BooleanExpression) :=
-  match fuel with
-  | 0 => Outcome.panic "fuel"
-  | fuel + 1 => do
-    -- L137: let imp_token = index_of_first(data, ExprToken::Imp);
-    let imp_token : Option Nat := index_of_first data ExprToken.Imp
-    -- L138: if let Some(imp_token) = imp_token {
-    match imp_token with
-    | some imp_token =>
-      -- L139: Ok(Box::new(Imp(
-      let q1__ ← match (← parser__cond fuel (← Rust.sliceTo data imp_token)) with
-        | .ok v__ => pure v__
-        | .error e__ => return (.error e__)
-      let q2__ ← match (← parser__imp fuel (← Rust.sliceFrom data (imp_token + 1))) with
-        | .ok v__ => pure v__
-        | .error e__ => return (.error e__)
-      pure (Except.ok (BooleanExpression.Imp q1__ q2__))
-    | _ =>
-      -- L144: cond(data)
-      pure (← parser__cond fuel data)
-
-/-- `iff` — src/boolean_expression/_impl_parser.rs:123 -/
-def parser__iff (fuel : Nat) (data : Array ExprToken) : Outcome (Except String BooleanExpression) :=
-  match fuel with
-  | 0 => Outcome.panic "fuel"
-  | fuel + 1 => do
-    -- L124: let iff_token = index_of_first(data, ExprToken::Iff);
-    let iff_token : Option Nat := index_of_first data ExprToken.Iff
-    -- L125: if let Some(iff_token) = iff_token {
-    match iff_token with
-    | some iff_token =>
-      -- L126: Ok(Box::new(Iff(
-      let q1__ ← match (← parser__imp fuel (← Rust.sliceTo data iff_token)) with
-        | .ok v__ => pure v__
-        | .error e__ => return (.error e__)
-      let q2__ ← match (← parser__iff fuel (← Rust.sliceFrom data (iff_token + 1))) with
-        | .ok v__ => pure v__
-        | .error e__ => return (.error e__)
-      pure (Except.ok (BooleanExpression.Iff q1__ q2__))
-    | _ =>
-      -- L131: imp(data)
-      pure (← parser__imp fuel data)
-
-/-- `parse_formula` — src/boolean_expression/_impl_parser.rs:109 -/
-def parse_formula (fuel : Nat) (data : Array ExprToken) : Outcome (Except String BooleanExpression) :=
-  match fuel with
-  | 0 => Outcome.panic "fuel"
-  | fuel + 1 => do
-    -- L110: if data.len() == 1 && matches!(data[0], ExprToken::Tokens(..)) {
-    let c1__ ← if data.size == 1 then
-      pure (match (← Rust.idx data 0) with | ExprToken.Tokens _ => true | _ => false)
-      else pure false
-    if c1__ then
-      -- L112: return terminal(data);
-      return (← terminal fuel data)
-    -- L114: iff(data)
-    pure (← parser__iff fuel data)
-end
-
-/-- `parse_boolean_expression` — src/boolean_expression/_impl_parser.rs:33 -/
-def parse_boolean_expression (fuel : Nat) (from_ : String) : Outcome (Except String BooleanExpression) := do
-  -- L34: let tokens = tokenize_group(&mut from.chars().peekable(), true)?;
-  let (ret1__, mut2__) := (← tokenize_group fuel from_.toList true)
-  let q3__ ← match ret1__ with
-    | .ok v__ => pure v__
-    | .error e__ => return (.error e__)
-  let tokens : Array ExprToken := q3__
-  -- L35: Ok(*(parse_formula(&tokens)?))
-  let q4__ ← match (← parse_formula fuel tokens) with
-    | .ok v__ => pure v__
-    | .error e__ => return (.error e__)
-  pure (Except.ok q4__)
-
-/-- `BooleanExpression::fmt` — src/boolean_expression/_impl_boolean_expression.rs:18 (returns the updated `&mut` arguments: f) -/
-def BooleanExpression_fmt (fuel : Nat) (self_ : BooleanExpression) (f : String) : Outcome (Except Unit Unit × String) :=
-  match fuel with
-  | 0 => Outcome.panic "fuel"
-  | fuel + 1 => do
-    let mut f := f
-    -- L19: match self {
-    match self_ with
-    | BooleanExpression.Const value =>
-      f := f ++ ((if value then "true" else "false"))
-      pure ((Except.ok () : Except Unit Unit), f)
-    | BooleanExpression.Variable name =>
-      f := f ++ name
-      pure ((Except.ok () : Except Unit Unit), f)
-    | BooleanExpression.Not inner =>
-      f := f ++ "!"
-      let (ret1__, mut2__) := (← BooleanExpression_fmt fuel inner f)
-      f := mut2__
-      if let .error e__ := ret1__ then return ((.error e__), f)
-      pure ((Except.ok () : Except Unit Unit), f)
-    | BooleanExpression.And l r =>
-      f := f ++ "("
-      let (ret3__, mut4__) := (← BooleanExpression_fmt fuel l f)
-      f := mut4__
-      if let .error e__ := ret3__ then return ((.error e__), f)
-      f := f ++ " & "
-      let (ret5__, mut6__) := (← BooleanExpression_fmt fuel r f)
-      f := mut6__
-      if let .error e__ := ret5__ then return ((.error e__), f)
-      f := f ++ ")"
-      pure ((Except.ok () : Except Unit Unit), f)
-    | BooleanExpression.Or l r =>
-      f := f ++ "("
-      let (ret7__, mut8__) := (← BooleanExpression_fmt fuel l f)
-      f := mut8__
-      if let .error e__ := ret7__ then return ((.error e__), f)
-      f := f ++ " | "
-      let (ret9__, mut10__) := (← BooleanExpression_fmt fuel r f)
-      f := mut10__
-      if let .error e__ := ret9__ then return ((.error e__), f)
-      f := f ++ ")"
-      pure ((Except.ok () : Except Unit Unit), f)
-    | BooleanExpression.Xor l r =>
-      f := f ++ "("
-      let (ret11__, mut12__) := (← BooleanExpression_fmt fuel l f)
-      f := mut12__
-      if let .error e__ := ret11__ then return ((.error e__), f)
-      f := f ++ " ^ "
-      let (ret13__, mut14__) := (← BooleanExpression_fmt fuel r f)
-      f := mut14__
-      if let .error e__ := ret13__ then return ((.error e__), f)
-      f := f ++ ")"
-      pure ((Except.ok () : Except Unit Unit), f)
-    | BooleanExpression.Imp l r =>
-      f := f ++ "("
-      let (ret15__, mut16__) := (← BooleanExpression_fmt fuel l f)
-      f := mut16__
-      if let .error e__ := ret15__ then return ((.error e__), f)
-      f := f ++ " => "
-      let (ret17__, mut18__) := (← BooleanExpression_fmt fuel r f)
-      f := mut18__
-      if let .error e__ := ret17__ then return ((.error e__), f)
-      f := f ++ ")"
-      pure ((Except.ok () : Except Unit Unit), f)
-    | BooleanExpression.Iff l r =>
-      f := f ++ "("
-      let (ret19__, mut20__) := (← BooleanExpression_fmt fuel l f)
-      f := mut20__
-      if let .error e__ := ret19__ then return ((.error e__), f)
-      f := f ++ " <=> "
-      let (ret21__, mut22__) := (← BooleanExpression_fmt fuel r f)
-      f := mut22__
-      if let .error e__ := ret21__ then return ((.error e__), f)
-      f := f ++ ")"
-      pure ((Except.ok () : Except Unit Unit), f)
-    | BooleanExpression.Cond cond then_expr else_expr =>
-      -- L29: write!(f, "({} ? {} : {})", cond, then_expr, else_expr)
-      f := f ++ "("
-      let (ret23__, mut24__) := (← BooleanExpression_fmt fuel cond f)
-      f := mut24__
-      if let .error e__ := ret23__ then return ((.error e__), f)
-      f := f ++ " ? "
-      let (ret25__, mut26__) := (← BooleanExpression_fmt fuel then_expr f)
-      f := mut26__
-      if let .error e__ := ret25__ then return ((.error e__), f)
-      f := f ++ " : "
-      let (ret27__, mut28__) := (← BooleanExpression_fmt fuel else_expr f)
-      f := mut28__
-      if let .error e__ := ret27__ then return ((.error e__), f)
-      f := f ++ ")"
-      pure ((Except.ok () : Except Unit Unit), f)
-
-/-- `BooleanExpression::try_from` — src/boolean_expression/_impl_boolean_expression.rs:12 -/
-def BooleanExpression_try_from (fuel : Nat) (value : String) : Outcome (Except String BooleanExpression) := do
-  -- L13: parse_boolean_expression(value)
-  pure (← parse_boolean_expression fuel value)
-
-/-- `Bdd::if_then_else::ite_function` — src/_impl_bdd/_impl_boolean_ops.rs:69 -/
-def Bdd_if_then_else__ite_function (a : Option Bool) (b : Option Bool) (c : Option Bool) : Option Bool :=
-  (match (a, b, c) with | (some true, _, _) => b | (some false, _, _) => c | (none, some false, some false) => some false | (none, some true, some true) => some true | (none, _, _) => none)
-
-/-- `Bdd::if_then_else` — src/_impl_bdd/_impl_boolean_ops.rs:68 -/
-def Bdd_if_then_else (fuel : Nat) (a : Arr) (b : Arr) (c : Arr) : Outcome Arr := do
-  -- L83: Bdd::ternary_op(a, b, c, ite_function)
-  pure (← Bdd_ternary_op fuel a b c Bdd_if_then_else__ite_function)
-
-/-- `BddVariableSet::safe_eval_expression` — src/boolean_expression/_impl_boolean_expression.rs:65 -/
-def BddVariableSet_safe_eval_expression (fuel : Nat) (self_ : Nat × Array String × Std.HashMap String Nat) (expression : BooleanExpression) : Outcome (Option Arr) :=
-  match fuel with
-  | 0 => Outcome.panic "fuel"
-  | fuel + 1 => do
-    -- L66: match expression {
-    match expression with
-    | BooleanExpression.Const value =>
-      pure (some (if value then BddVariableSet_mk_true self_ else BddVariableSet_mk_false self_))
-    | BooleanExpression.Variable name =>
-      pure ((BddVariableSet_var_by_name self_ name).map (fun v => BddVariableSet_mk_var self_ v))
-    | BooleanExpression.Not inner =>
-      let v1__ ← match (← BddVariableSet_safe_eval_expression fuel self_ inner) with
-        | some b =>
-          pure (some (← Bdd_not b))
-        | none => pure none
-      pure v1__
-    | BooleanExpression.And l r =>
-      -- L75: let left = self.safe_eval_expression(l)?;
-      let some q2__ := (← BddVariableSet_safe_eval_expression fuel self_ l) | return none
-      let left : Arr := q2__
-      -- L76: let right = self.safe_eval_expression(r)?;
-      let some q3__ := (← BddVariableSet_safe_eval_expression fuel self_ r) | return none
-      let right : Arr := q3__
-      -- L77: Some(left.and(&right))
-      pure (some (← Bdd_and fuel left right))
-    | BooleanExpression.Or l r =>
-      -- L80: let left = self.safe_eval_expression(l)?;
-      let some q4__ := (← BddVariableSet_safe_eval_expression fuel self_ l) | return none
-      let left : Arr := q4__
-      -- L81: let right = self.safe_eval_expression(r)?;
-      let some q5__ := (← BddVariableSet_safe_eval_expression fuel self_ r) | return none
-      let right : Arr := q5__
-      -- L82: Some(left.or(&right))
-      pure (some (← Bdd_or fuel left right))
-    | BooleanExpression.Xor l r =>
-      -- L85: let left = self.safe_eval_expression(l)?;
-      let some q6__ := (← BddVariableSet_safe_eval_expression fuel self_ l) | return none
-      let left : Arr := q6__
-      -- L86: let right = self.safe_eval_expression(r)?;
-      let some q7__ := (← BddVariableSet_safe_eval_expression fuel self_ r) | return none
-      let right : Arr := q7__
-      -- L87: Some(left.xor(&right))
-      pure (some (← Bdd_xor fuel left right))
-    | BooleanExpression.Imp l r =>
-      -- L90: let left = self.safe_eval_expression(l)?;
-      let some q8__ := (← BddVariableSet_safe_eval_expression fuel self_ l) | return none
-      let left : Arr := q8__
-      -- L91: let right = self.safe_eval_expression(r)?;
-      let some q9__ := (← BddVariableSet_safe_eval_expression fuel self_ r) | return none
-      let right : Arr := q9__
-      -- L92: Some(left.imp(&right))
-      pure (some (← Bdd_imp fuel left right))
-    | BooleanExpression.Iff l r =>
-      -- L95: let left = self.safe_eval_expression(l)?;
-      let some q10__ := (← BddVariableSet_safe_eval_expression fuel self_ l) | return none
-      let left : Arr := q10__
-      -- L96: let right = self.safe_eval_expression(r)?;
-      let some q11__ := (← BddVariableSet_safe_eval_expression fuel self_ r) | return none
-      let right : Arr := q11__
-      -- L97: Some(left.iff(&right))
-      pure (some (← Bdd_iff fuel left right))
-    | BooleanExpression.Cond cond then_expr else_expr =>
-      -- L100: let cond = self.safe_eval_expression(cond)?;
-      let some q12__ := (← BddVariableSet_safe_eval_expression fuel self_ cond) | return none
-      let cond : Arr := q12__
-      -- L101: let then_expr = self.safe_eval_expression(then_expr)?;
-      let some q13__ := (← BddVariableSet_safe_eval_expression fuel self_ then_expr) | return none
-      let then_expr : Arr := q13__
-      -- L102: let else_expr = self.safe_eval_expression(else_expr)?;
-      let some q14__ := (← BddVariableSet_safe_eval_expression fuel self_ else_expr) | return none
-      let else_expr : Arr := q14__
-      -- L103: Some(Bdd::if_then_else(&cond, &then_expr, &else_expr))
-      pure (some (← Bdd_if_then_else fuel cond then_expr else_expr))
-
-/-- `BddVariableSet::eval_expression` — src/boolean_expression/_impl_boolean_expression.rs:110 -/
-def BddVariableSet_eval_expression (fuel : Nat) (self_ : Nat × Array String × Std.HashMap String Nat) (expression : BooleanExpression) : Outcome Arr := do
-  -- L111: self.safe_eval_expression(expression).unwrap()
-  pure (← Rust.unwrap (← BddVariableSet_safe_eval_expression fuel self_ expression))
-
-/-- `BddVariableSet::eval_expression_string` — src/boolean_expression/_impl_boolean_expression.rs:117 -/
-def BddVariableSet_eval_expression_string (fuel : Nat) (self_ : Nat × Array String × Std.HashMap String Nat) (expression : String) : Outcome Arr := do
-  -- L118: let parsed = BooleanExpression::try_from(expression).unwrap();
-  let parsed := (← Rust.unwrapR (← BooleanExpression_try_from fuel expression))
-  -- L119: self.eval_expression(&parsed)
-  pure (← BddVariableSet_eval_expression fuel self_ parsed)
-
-/-- `Bdd::to_boolean_expression` — src/_impl_bdd/_impl_util.rs:304 -/
-def Bdd_to_boolean_expression (self_ : Arr) (variables : Nat × Array String × Std.HashMap String Nat) : Outcome BooleanExpression := do
-  -- L305: if self.is_false() {
-  if Bdd_is_false self_ then
-    -- L306: return BooleanExpression::Const(false);
-    return BooleanExpression.Const false
-  -- L308: if self.is_true() {
-  if Bdd_is_true self_ then
-    -- L309: return BooleanExpression::Const(true);
-    return BooleanExpression.Const true
-  -- L312: let mut results: Vec<BooleanExpression> = Vec::with_capacity(self.0.len());
-  let mut results : Array BooleanExpression := Rust.vecWithCapacity self_.size
-  -- L313: results.push(BooleanExpression::Const(false)); // fake terminals
-  results := results.push (BooleanExpression.Const false)
-  -- L314: results.push(BooleanExpression::Const(true)); // never used
-  results := results.push (BooleanExpression.Const true)
-  -- L315: for node in 2..self.0.len() {
-  for node in [2:self_.size] do
-    -- L317: let node_var = self.0[node].var;
-    let node_var := (← Rust.idx self_ node).var
-    -- L318: let var_name = variables.var_names[node_var.0 as usize].clone();
-    let var_name := (← Rust.idx variables.2.1 node_var)
-    -- L320: let low_link = self.0[node].low_link;
-    let low_link := (← Rust.idx self_ node).low
-    -- L321: let high_link = self.0[node].high_link;
-    let high_link := (← Rust.idx self_ node).high
-    -- L322: let expression = if low_link.is_terminal() && high_link.is_terminal() {
-    let expression ← if (BddPointer_is_terminal low_link) && (BddPointer_is_terminal high_link) then
-        -- L324: if high_link.is_one() && low_link.is_zero() {
-        if (BddPointer_is_one high_link) && (BddPointer_is_zero low_link) then
-          -- L325: Variable(var_name)
-          pure (BooleanExpression.Variable var_name)
-        else if (BddPointer_is_zero high_link) && (BddPointer_is_one low_link) then
-          -- L327: BooleanExpression::Not(Box::new(Variable(var_name)))
-          pure (BooleanExpression.Not (BooleanExpression.Variable var_name))
-        else
-          -- L329: panic!("Invalid node {:?} in bdd {:?}.", self.0[node], self.0);
-          Outcome.panic "Invalid node {:?} in bdd {:?}."
-      else if BddPointer_is_terminal low_link then
-        -- L332: if low_link.is_zero() {
-        if BddPointer_is_zero low_link then
-          -- L334: BooleanExpression::And(
-          pure (BooleanExpression.And (BooleanExpression.Variable var_name) (← Rust.idx results high_link))
-        else
-          -- L340: BooleanExpression::Or(
-          pure (BooleanExpression.Or (BooleanExpression.Not (BooleanExpression.Variable var_name)) (← Rust.idx results high_link))
-      else if BddPointer_is_terminal high_link then
-        -- L346: if high_link.is_zero() {
-        if BddPointer_is_zero high_link then
-          -- L348: BooleanExpression::And(
-          pure (BooleanExpression.And (BooleanExpression.Not (BooleanExpression.Variable var_name)) (← Rust.idx results low_link))
-        else
-          -- L354: BooleanExpression::Or(
-          pure (BooleanExpression.Or (BooleanExpression.Variable var_name) (← Rust.idx results low_link))
-      else
-        -- L361: BooleanExpression::Or(
-        pure (BooleanExpression.Or (BooleanExpression.And (BooleanExpression.Variable var_name) (← Rust.idx results high_link)) (BooleanExpression.And (BooleanExpression.Not (BooleanExpression.Variable var_name)) (← Rust.idx results low_link)))
-    -- L372: results.push(expression);
-    results := results.push expression
-  -- L375: results.last().unwrap().clone()
-  pure (← Rust.unwrap results.back?)
-
-/-- `BddVariableSet::new` — src/_impl_bdd_variable_set.rs:28 -/
-def BddVariableSet_new (vars : Array String) : Outcome (Nat × Array String × Std.HashMap String Nat) := do
-  -- L29: let num_vars = vars.len();
-  let num_vars := vars.size
-  -- L30: if num_vars >= ((u16::MAX - 1) as usize) {
-  if decide (num_vars ≥ (← Rust.sub 65535 1)) then
-    -- L31: panic!(
-    Outcome.panic "Too many BDD variables. There can be at most {} variables."
-  -- L36: let var_names: Vec<String> = vars
-  let mut map2__ := #[]
-  for name in vars do
-    let v3__ ← do
-        -- L39: if name.chars().any(|c| NOT_IN_VAR_NAME.contains(&c)) {
-        if name.toList.any (fun c => NOT_IN_VAR_NAME.contains c) then
-          -- L40: panic!(
-          Outcome.panic "Variable name {} is invalid. Cannot use {:?}"
-        -- L45: name.to_string()
-        pure name
-    map2__ := map2__.push v3__
-  let var_names : Array String := map2__
-  -- L48: let var_index_mapping: HashMap<String, u16> = vars
-  let var_index_mapping : Std.HashMap String Nat := Rust.hashMapFromArr ((Rust.enumerate vars).map (fun (id_, name) => (name, Rust.asU16 id_)))
-  -- L54: if var_index_mapping.len() != var_names.len() {
-  if var_index_mapping.size != var_names.size then
-    -- L55: panic!("Existing duplicated BDD variable.");
-    Outcome.panic "Existing duplicated BDD variable."
-  -- L57: BddVariableSet {
-  pure (Rust.asU16 num_vars, var_names, var_index_mapping)
-
-/-- `BddVariableSet::variables` — src/_impl_bdd_variable_set.rs:76 -/
-def BddVariableSet_variables (self_ : Nat × Array String × Std.HashMap String Nat) : Array Nat :=
-  (Array.range self_.1).map (fun x => x)
-
-/-- `BddVariableSet::variable_names` — src/_impl_bdd_variable_set.rs:82 -/
-def BddVariableSet_variable_names (self_ : Nat × Array String × Std.HashMap String Nat) : Array String :=
-  self_.2.1
-
-/-- `BddVariableSetBuilder::new` — src/_impl_bdd_variable_set_builder.rs:7 -/
-def BddVariableSetBuilder_new  : Array String × Std.HashSet String :=
-  (#[], Rust.hashSetWithCapacity 8)
-
-/-- `BddVariableSetBuilder::make_variable` — src/_impl_bdd_variable_set_builder.rs:21 (returns the updated `&mut` arguments: self_) -/
-def BddVariableSetBuilder_make_variable (self_ : Array String × Std.HashSet String) (name : String) : Outcome (Nat × (Array String × Std.HashSet String)) := do
-  let mut self_ := self_
-  -- L22: let new_variable_id = self.var_names.len();
-  let new_variable_id := self_.1.size
-  -- L23: if new_variable_id >= (u16::MAX - 1) as usize {
-  if decide (new_variable_id ≥ (← Rust.sub 65535 1)) then
-    -- L24: panic!(
-    Outcome.panic "Too many BDD variables. There can be at most {} variables."
-  -- L29: if self.var_names_set.contains(name) {
-  if self_.2.contains name then
-    -- L30: panic!("BDD variable {} already exists.", name);
-    Outcome.panic "BDD variable {} already exists."
-  -- L32: if name.chars().any(|c| NOT_IN_VAR_NAME.contains(&c)) {
-  if name.toList.any (fun c => NOT_IN_VAR_NAME.contains c) then
-    -- L33: panic!(
-    Outcome.panic "Variable name {} is invalid. Cannot use {:?}"
-  -- L38: self.var_names_set.insert(name.to_string());
-  self_ := (self_.1, self_.2.insert name)
-  -- L39: self.var_names.push(name.to_string());
-  self_ := (self_.1.push name, self_.2)
-  -- L40: BddVariable(new_variable_id as u16)
-  pure (Rust.asU16 new_variable_id, self_)
-
-/-- `BddVariableSetBuilder::make_variables` — src/_impl_bdd_variable_set_builder.rs:50 (returns the updated `&mut` arguments: self_) -/
-def BddVariableSetBuilder_make_variables (self_ : Array String × Std.HashSet String) (names : Array String) : Outcome (Array Nat × (Array String × Std.HashSet String)) := do
-  let mut self_ := self_
-  -- L51: names.iter().map(|name| self.make_variable(name)).collect()
-  let mut map3__ := #[]
-  for name in names do
-    let (ret4__, mut5__) := (← BddVariableSetBuilder_make_variable self_ name)
-    self_ := mut5__
-    map3__ := map3__.push ret4__
-  pure (map3__, self_)
-
-/-- `BddVariableSetBuilder::build` — src/_impl_bdd_variable_set_builder.rs:55 -/
-def BddVariableSetBuilder_build (self_ : Array String × Std.HashSet String) : Outcome (Nat × Array String × Std.HashMap String Nat) := do
-  -- L56: let mut mapping: HashMap<String, u16> = HashMap::new();
-  let mut mapping : Std.HashMap String Nat := Rust.hashMapWithCapacity 8
-  -- L57: for name_index in 0..self.var_names.len() {
-  for name_index in [0:self_.1.size] do
-    -- L58: let name = self.var_names[name_index].clone();
-    let name := (← Rust.idx self_.1 name_index)
-    -- L59: mapping.insert(name, name_index as u16);
-    mapping := mapping.insert name (Rust.asU16 name_index)
-  -- L61: BddVariableSet {
-  pure (Rust.asU16 self_.1.size, self_.1, mapping)
-
-/-- `write_bdd_as_dot` — src/_impl_bdd/_impl_export_dot.rs:36 (returns the updated `&mut` arguments: output) -/
-def write_bdd_as_dot (output : Rust.Writer) (bdd : Arr) (var_names : Array String) (zero_pruned : Bool) : Outcome (Except Rust.IoError Unit × Rust.Writer) := do
-  let mut output := output
-  -- L42: if var_names.len() != (bdd.num_vars() as usize) {
-  if var_names.size != (← Bdd_num_vars bdd) then
-    -- L43: panic!(
-    Outcome.panic "Bdd is incompatible with the variable set ({} vs. {} variables)"
-  -- L49: writeln!(output, "digraph G {{")?;
-  let (res1__, wr2__) := Rust.writeAll output (Rust.utf8Bytes "digraph G {\n")
-  output := wr2__
-  if let .error e__ := res1__ then return ((.error e__), output)
-  let q3__ ← match (Except.ok () : Except Rust.IoError Unit) with
-    | .ok v__ => pure v__
-    | .error e__ => return ((.error e__), output)
-  let _ := q3__
-  -- L53: )?;
-  let (res4__, wr5__) := Rust.writeAll output (Rust.utf8Bytes "init__ [label=\"\", style=invis, height=0, width=0];\n")
-  output := wr5__
-  if let .error e__ := res4__ then return ((.error e__), output)
-  let q6__ ← match (Except.ok () : Except Rust.IoError Unit) with
-    | .ok v__ => pure v__
-    | .error e__ => return ((.error e__), output)
-  let _ := q6__
-  -- L54: writeln!(output, "init__ -> {};", bdd.root_pointer())?;
-  let (res7__, wr8__) := Rust.writeAll output (Rust.utf8Bytes "init__ -> ")
-  output := wr8__
-  if let .error e__ := res7__ then return ((.error e__), output)
-  let (res9__, wr10__) := Rust.writeAll output (Rust.utf8Bytes (toString (← Bdd_root_pointer bdd)))
-  output := wr10__
-  if let .error e__ := res9__ then return ((.error e__), output)
-  let (res11__, wr12__) := Rust.writeAll output (Rust.utf8Bytes ";\n")
-  output := wr12__
-  if let .error e__ := res11__ then return ((.error e__), output)
-  let q13__ ← match (Except.ok () : Except Rust.IoError Unit) with
-    | .ok v__ => pure v__
-    | .error e__ => return ((.error e__), output)
-  let _ := q13__
-  -- L64: if !zero_pruned {
-  if !zero_pruned then
-    -- L68: )?;
-    let (res14__, wr15__) := Rust.writeAll output (Rust.utf8Bytes "0 [shape=box, label=\"0\", style=filled, shape=box, height=0.3, width=0.3];\n")
-    output := wr15__
-    if let .error e__ := res14__ then return ((.error e__), output)
-    let q16__ ← match (Except.ok () : Except Rust.IoError Unit) with
-      | .ok v__ => pure v__
-      | .error e__ => return ((.error e__), output)
-    let _ := q16__
-  -- L73: )?;
-  let (res17__, wr18__) := Rust.writeAll output (Rust.utf8Bytes "1 [shape=box, label=\"1\", style=filled, shape=box, height=0.3, width=0.3];\n")
-  output := wr18__
-  if let .error e__ := res17__ then return ((.error e__), output)
-  let q19__ ← match (Except.ok () : Except Rust.IoError Unit) with
-    | .ok v__ => pure v__
-    | .error e__ => return ((.error e__), output)
-  let _ := q19__
-  -- L76: for node_pointer in bdd.pointers().skip(2) {
-  for node_pointer in Rust.skip (Bdd_pointers bdd) 2 do
-    -- L78: let var_name = &var_names[bdd.var_of(node_pointer).0 as usize];
-    let var_name := (← Rust.idx var_names (← Bdd_var_of bdd node_pointer))
-    -- L79: writeln!(output, "{}[label=\"{}\"];", node_pointer, var_name)?;
-    let (res20__, wr21__) := Rust.writeAll output (Rust.utf8Bytes (toString node_pointer))
-    output := wr21__
-    if let .error e__ := res20__ then return ((.error e__), output)
-    let (res22__, wr23__) := Rust.writeAll output (Rust.utf8Bytes "[label=\"")
-    output := wr23__
-    if let .error e__ := res22__ then return ((.error e__), output)
-    let (res24__, wr25__) := Rust.writeAll output (Rust.utf8Bytes var_name)
-    output := wr25__
-    if let .error e__ := res24__ then return ((.error e__), output)
-    let (res26__, wr27__) := Rust.writeAll output (Rust.utf8Bytes "\"];\n")
-    output := wr27__
-    if let .error e__ := res26__ then return ((.error e__), output)
-    let q28__ ← match (Except.ok () : Except Rust.IoError Unit) with
-      | .ok v__ => pure v__
-      | .error e__ => return ((.error e__), output)
-    let _ := q28__
-    -- L80: let high_link = bdd.high_link_of(node_pointer);
-    let high_link := (← Bdd_high_link_of bdd node_pointer)
-    -- L81: if !zero_pruned || !high_link.is_zero() {
-    if (!zero_pruned) || (!(BddPointer_is_zero high_link)) then
-      -- L83: writeln!(output, "{} -> {} [style=filled];", node_pointer, high_link)?;
-      let (res29__, wr30__) := Rust.writeAll output (Rust.utf8Bytes (toString node_pointer))
-      output := wr30__
-      if let .error e__ := res29__ then return ((.error e__), output)
-      let (res31__, wr32__) := Rust.writeAll output (Rust.utf8Bytes " -> ")
-      output := wr32__
-      if let .error e__ := res31__ then return ((.error e__), output)
-      let (res33__, wr34__) := Rust.writeAll output (Rust.utf8Bytes (toString high_link))
-      output := wr34__
-      if let .error e__ := res33__ then return ((.error e__), output)
-      let (res35__, wr36__) := Rust.writeAll output (Rust.utf8Bytes " [style=filled];\n")
-      output := wr36__
-      if let .error e__ := res35__ then return ((.error e__), output)
-      let q37__ ← match (Except.ok () : Except Rust.IoError Unit) with
-        | .ok v__ => pure v__
-        | .error e__ => return ((.error e__), output)
-      let _ := q37__
-    -- L85: let low_link = bdd.low_link_of(node_pointer);
-    let low_link := (← Bdd_low_link_of bdd node_pointer)
-    -- L86: if !zero_pruned || !low_link.is_zero() {
-    if (!zero_pruned) || (!(BddPointer_is_zero low_link)) then
-      -- L88: writeln!(output, "{} -> {} [style=dotted];", node_pointer, low_link)?;
-      let (res38__, wr39__) := Rust.writeAll output (Rust.utf8Bytes (toString node_pointer))
-      output := wr39__
-      if let .error e__ := res38__ then return ((.error e__), output)
-      let (res40__, wr41__) := Rust.writeAll output (Rust.utf8Bytes " -> ")
-      output := wr41__
-      if let .error e__ := res40__ then return ((.error e__), output)
-      let (res42__, wr43__) := Rust.writeAll output (Rust.utf8Bytes (toString low_link))
-      output := wr43__
-      if let .error e__ := res42__ then return ((.error e__), output)
-      let (res44__, wr45__) := Rust.writeAll output (Rust.utf8Bytes " [style=dotted];\n")
-      output := wr45__
-      if let .error e__ := res44__ then return ((.error e__), output)
-      let q46__ ← match (Except.ok () : Except Rust.IoError Unit) with
-        | .ok v__ => pure v__
-        | .error e__ => return ((.error e__), output)
-      let _ := q46__
-  -- L91: writeln!(output, "}}")?;
-  let (res47__, wr48__) := Rust.writeAll output (Rust.utf8Bytes "}\n")
-  output := wr48__
-  if let .error e__ := res47__ then return ((.error e__), output)
-  let q49__ ← match (Except.ok () : Except Rust.IoError Unit) with
-    | .ok v__ => pure v__
-    | .error e__ => return ((.error e__), output)
-  let _ := q49__
-  -- L92: Ok(())
-  pure (Except.ok (), output)
-
-/-- `bdd_to_dot_string` — src/_impl_bdd/_impl_export_dot.rs:98 -/
-def bdd_to_dot_string (bdd : Arr) (var_names : Array String) (zero_pruned : Bool) : Outcome String := do
-  -- L99: let mut buffer: Vec<u8> = Vec::new();
-  let mut buffer : Array Nat := #[]
-  -- L101: .expect("Cannot write BDD to .dot string.");
-  let (ret1__, mut2__) := (← write_bdd_as_dot (Rust.Writer.ofVec buffer) bdd var_names zero_pruned)
-  buffer := mut2__.out
-  Rust.unwrapR ret1__
-  -- L102: String::from_utf8(buffer).expect("Invalid UTF formatting in .dot string.")
-  pure (← Rust.unwrapR (Rust.stringFromUtf8 buffer))
-
-/-- `Bdd::write_as_dot_string` — src/_impl_bdd/_impl_export_dot.rs:12 (returns the updated `&mut` arguments: output) -/
-def Bdd_write_as_dot_string (self_ : Arr) (output : Rust.Writer) (variables : Nat × Array String × Std.HashMap String Nat) (zero_pruned : Bool) : Outcome (Except Rust.IoError Unit × Rust.Writer) := do
-  let mut output := output
-  -- L18: write_bdd_as_dot(output, self, &variables.var_names, zero_pruned)
-  let (ret1__, mut2__) := (← write_bdd_as_dot output self_ variables.2.1 zero_pruned)
-  output := mut2__
-  pure (ret1__, output)
-
-/-- `Bdd::to_dot_string` — src/_impl_bdd/_impl_export_dot.rs:27 -/
-def Bdd_to_dot_string (self_ : Arr) (variables : Nat × Array String × Std.HashMap String Nat) (zero_pruned : Bool) : Outcome String := do
-  -- L28: bdd_to_dot_string(self, &variables.var_names, zero_pruned)
-  pure (← bdd_to_dot_string self_ variables.2.1 zero_pruned)
-
-/-- `ValuationsOfClauseIterator::empty` — src/_impl_iterator_valuations_of_clause.rs:6 -/
-def ValuationsOfClauseIterator_empty  : Option (Array Bool) × Array (Option Bool) :=
-  (none, BddPartialValuation_empty)
-
-/-- `Bdd::sat_valuations` — src/_impl_bdd_satisfying_valuations.rs:11 -/
-def Bdd_sat_valuations (fuel : Nat) (self_ : Arr) : Outcome (Arr × (Arr × Array Nat) × (Option (Array Bool) × Array (Option Bool))) := do
-  -- L12: let mut path_iter = BddPathIterator::new(self);
-  let mut path_iter := (← BddPathIterator_new fuel self_)
-  -- L13: let val_iter = if let Some(first) = path_iter.next() {
-  let (ret3__, mut4__) := (← BddPathIterator_next fuel path_iter)
-  path_iter := mut4__
-  let val_iter ← match ret3__ with
-    | some first =>
-      -- L14: ValuationsOfClauseIterator::new(first, self.num_vars())
-      pure (← ValuationsOfClauseIterator_new first (← Bdd_num_vars self_))
-    | _ =>
-      -- L17: ValuationsOfClauseIterator::empty()
-      pure ValuationsOfClauseIterator_empty
-  -- L19: BddSatisfyingValuations {
-  pure (self_, path_iter, val_iter)
-
-/-- `BddSatisfyingValuations::next` — src/_impl_bdd_satisfying_valuations.rs:65 (returns the updated `&mut` arguments: self_) -/
-def BddSatisfyingValuations_next (fuel : Nat) (self_ : Arr × (Arr × Array Nat) × (Option (Array Bool) × Array (Option Bool))) : Outcome (Option (Array Bool) × (Arr × (Arr × Array Nat) × (Option (Array Bool) × Array (Option Bool)))) := do
-  let mut self_ := self_
-  -- L66: let next_valuation = self.valuations.next();
-  let (ret1__, mut2__) := (← ValuationsOfClauseIterator_next self_.2.2)
-  self_ := (self_.1, self_.2.1, mut2__)
-  let next_valuation : Option (Array Bool) := ret1__
-  -- L67: if next_valuation.is_some() {
-  if next_valuation.isSome then
-    -- L68: next_valuation
-    pure (next_valuation, self_)
-  else
-    let (ret3__, mut4__) := (← BddPathIterator_next fuel self_.2.1)
-    self_ := (self_.1, mut4__, self_.2.2)
-    match ret3__ with
-    | some next_path =>
-      -- L70: self.valuations = ValuationsOfClauseIterator::new(next_path, self.bdd.num_vars());
-      self_ := (self_.1, self_.2.1, (← ValuationsOfClauseIterator_new next_path (← Bdd_num_vars self_.1)))
-      -- L72: self.valuations.next()
-      let (ret5__, mut6__) := (← ValuationsOfClauseIterator_next self_.2.2)
-      self_ := (self_.1, self_.2.1, mut6__)
-      pure (ret5__, self_)
-    | _ =>
-      -- L75: None
-      pure (none, self_)
-
-/-- `Bdd::sat_clauses` — src/_impl_bdd_satisfying_valuations.rs:50 -/
-def Bdd_sat_clauses (fuel : Nat) (self_ : Arr) : Outcome (Arr × Array Nat) := do
-  -- L51: BddPathIterator::new(self)
-  pure (← BddPathIterator_new fuel self_)
-
-/-- `lift_err` — src/_impl_bdd/_impl_serialisation.rs:106 -/
-def lift_err {T : Type} {E : Type} [ToString E] (item : Except E T) : Except String T :=
-  Except.mapError (fun e => toString e) item
-
-/-- `Bdd::write_as_string` — src/_impl_bdd/_impl_serialisation.rs:9 (returns the updated `&mut` arguments: output) -/
-def Bdd_write_as_string (self_ : Arr) (output : Rust.Writer) : Outcome (Except Rust.IoError Unit × Rust.Writer) := do
-  let mut output := output
-  -- L10: write!(output, "|")?;
-  let (res1__, wr2__) := Rust.writeAll output (Rust.utf8Bytes "|")
-  output := wr2__
-  if let .error e__ := res1__ then return ((.error e__), output)
-  let q3__ ← match (Except.ok () : Except Rust.IoError Unit) with
-    | .ok v__ => pure v__
-    | .error e__ => return ((.error e__), output)
-  let _ := q3__
-  -- L11: for node in self.nodes() {
-  for node in Bdd_nodes self_ do
-    -- L12: write!(output, "{},{},{}|", node.var, node.low_link, node.high_link)?;
-    let (res4__, wr5__) := Rust.writeAll output (Rust.utf8Bytes (toString node.var))
-    output := wr5__
-    if let .error e__ := res4__ then return ((.error e__), output)
-    let (res6__, wr7__) := Rust.writeAll output (Rust.utf8Bytes ",")
-    output := wr7__
-    if let .error e__ := res6__ then return ((.error e__), output)
-    let (res8__, wr9__) := Rust.writeAll output (Rust.utf8Bytes (toString node.low))
-    output := wr9__
-    if let .error e__ := res8__ then return ((.error e__), output)
-    let (res10__, wr11__) := Rust.writeAll output (Rust.utf8Bytes ",")
-    output := wr11__
-    if let .error e__ := res10__ then return ((.error e__), output)
-    let (res12__, wr13__) := Rust.writeAll output (Rust.utf8Bytes (toString node.high))
-    output := wr13__
-    if let .error e__ := res12__ then return ((.error e__), output)
-    let (res14__, wr15__) := Rust.writeAll output (Rust.utf8Bytes "|")
-    output := wr15__
-    if let .error e__ := res14__ then return ((.error e__), output)
-    let q16__ ← match (Except.ok () : Except Rust.IoError Unit) with
-      | .ok v__ => pure v__
-      | .error e__ => return ((.error e__), output)
-    let _ := q16__
-  -- L14: Ok(())
-  pure (Except.ok (), output)
-
-/-- `Bdd::read_as_string` — src/_impl_bdd/_impl_serialisation.rs:18 (returns the updated `&mut` arguments: input) -/
-def Bdd_read_as_string (input : Rust.Reader) : Outcome (Except String Arr × Rust.Reader) := do
-  let mut input := input
-  -- L19: let mut data = String::new();
-  let mut data := ""
-  -- L20: lift_err(input.read_to_string(&mut data))?;
-  let (res1__, rd2__, str3__) := Rust.readToString input data
-  input := rd2__
-  data := str3__
-  let q4__ ← match lift_err res1__ with
-    | .ok v__ => pure v__
-    | .error e__ => return ((.error e__), input)
-  let _ := q4__
-  -- L21: data.retain(|c| !c.is_whitespace()); // Ignore whitespace when parsing.
-  data := Rust.strRetain data (fun c => !(Rust.charIsWhitespace c))
-  -- L22: let mut result = Vec::new();
-  let mut result : Array Node := #[]
-  -- L23: for node_string in data.split('|').filter(|s| !s.is_empty()) {
-  for node_string in (Rust.strSplit data ('|')).filter (fun s => !s.isEmpty) do
-    -- L24: let node_items: Vec<&str> = node_string.split(',').collect();
-    let node_items : Array String := Rust.strSplit node_string (',')
-    -- L25: if node_items.len() != 3 {
-    if node_items.size != 3 then
-      -- L26: return Err(format!(
-      return (Except.error ("Expected `var,low,high`, but found `" ++ node_string ++ "`."), input)
-    -- L31: let node = BddNode::mk_node(
-    let q5__ ← match lift_err (Rust.parseU16 (← Rust.idx node_items 0)) with
-      | .ok v__ => pure v__
-      | .error e__ => return ((.error e__), input)
-    let q6__ ← match lift_err (Rust.parseU32 (← Rust.idx node_items 1)) with
-      | .ok v__ => pure v__
-      | .error e__ => return ((.error e__), input)
-    let q7__ ← match lift_err (Rust.parseU32 (← Rust.idx node_items 2)) with
-      | .ok v__ => pure v__
-      | .error e__ => return ((.error e__), input)
-    let node := BddNode_mk_node q5__ q6__ q7__
-    -- L36: result.push(node);
-    result := result.push node
-  -- L38: Ok(Bdd(result))
-  pure (Except.ok result, input)
-
-/-- `Bdd::from_string` — src/_impl_bdd/_impl_serialisation.rs:79 -/
-def Bdd_from_string (bdd : String) : Outcome Arr := do
-  -- L80: Bdd::read_as_string(&mut bdd.as_bytes()).expect("Invalid BDD string.")
-  let (ret1__, mut2__) := (← Bdd_read_as_string (Rust.Reader.ofSlice (Rust.utf8Bytes bdd)))
-  pure (← Rust.unwrapR ret1__)
-
-/-- `Bdd::fmt` — src/_impl_bdd/_impl_serialisation.rs:98 (returns the updated `&mut` arguments: f) -/
-def Bdd_fmt (self_ : Arr) (f : String) : Outcome (Except Unit Unit × String) := do
-  let mut f := f
-  -- L99: let mut buffer: Vec<u8> = Vec::new();
-  let mut buffer : Array Nat := #[]
-  -- L101: .expect("Cannot write BDD to string.");
-  let (ret1__, mut2__) := (← Bdd_write_as_string self_ (Rust.Writer.ofVec buffer))
-  buffer := mut2__.out
-  Rust.unwrapR ret1__
-  -- L102: f.write_str(&String::from_utf8(buffer).expect("Invalid UTF formatting in string."))
-  f := f ++ (← Rust.unwrapR (Rust.stringFromUtf8 buffer))
-  pure ((Except.ok () : Except Unit Unit), f)
-
-end B.Gen.Algo3
+namespace B.Gen
+end B.Gen
+-- BROKEN TIE: rust2lean: src/_impl_bdd_variable_set.rs:79 (fn BddVariableSet::var_by_name): `.find()` on an iterator in hash order
